@@ -30,6 +30,9 @@ func (r *run) pickCrashPoints(log []simos.Effect, want int, seed uint64) []int {
 			cand = append(cand, i)
 		}
 	}
+	if want < 0 && len(cand) > 600 {
+		want = 600 // thorough tier: every crash point of a history, unless it has more than 600 (then a weighted sample of 600: one case must not take an hour)
+	}
 	if want < 0 || len(cand) <= want {
 		return cand
 	}
